@@ -31,4 +31,14 @@ OBLIGATIONS = [
         "cbmc_flags": ["--arrays-uf-always"],
         "expect_classes": ["assertion"], "expect_min": 5,
     },
+    {
+        "name": "dataset_item_equals_spec_7_3",
+        "files": [{"cxx": XS.DATASET_ITEM, "out": "ds.c", "header": True}, "harness_item.c"],
+        "incdirs": INC, "defines": ['RXV_CONTRACTS_H="contracts_item.h"'],
+        "entry": "h_item", "enforce": "initDatasetItem",
+        "unwind": 9, "cbmc_flags": ["--object-bits", "12"],
+        "checks": ["--bounds-check", "--pointer-check", "--div-by-zero-check", "--undefined-shift-check", "--signed-overflow-check"],
+        "expect_classes": ["postcondition", "precondition", "assigns"], "expect_min": 20,
+        "timeout": 900,
+    },
 ]
